@@ -250,7 +250,7 @@ def _value_harness(kind, mode, n, p, s, e):
 
 def _witness(eng, acc, kind, mode, n, p, s, e, out):
     """Float witness: native run of the unpatched code on a model of the path."""
-    if acc.c.get("witness_tried", 0) >= 40:
+    if acc.total("witness_tried") >= 40:
         return
     acc.inc("witness_tried")
     model, delta = robust_model(eng)
